@@ -73,8 +73,74 @@ def _job(eng, conf, what, stream_seed, global_seed, zero_momentum):
         scratch.rmtree(wd)
 
 
+def lammps_seeds(streams, global_seed):
+    """The seeds LAMMPS is handed for its stochastic integrator: one engine object, one job per entry of
+    ``streams`` (each with its own engine stream, a backward and a forward propagation), against the fake
+    LAMMPS of vf/fakeproc (default schedule).  Returns the seeds found in the run inputs, job by job."""
+    import infretis.classes.engines.lammps as lmod
+    from infretis.classes.orderparameter import Distance
+    from infretis.classes.path import Path
+    from infretis.classes.system import System
+    from vf import fakeproc
+    from vf.explore import Chooser
+
+    wd = scratch.mkdtemp("c07l")
+    out = []
+    try:
+        eng, _ = engines.lammps()
+        eng.exe_dir = wd
+        eng.order_function = Distance((0, 1), periodic=True)
+        eng.subcycles = 1
+        eng.timestep = 1.0
+        conf = os.path.join(wd, "init.lammpstrj")
+        lmod.write_lammpstrj(conf, np.array([[1, 1], [2, 1]]), np.array([[1.0, 0.5, 0.25], [2.0, 0.5, 0.25]]),
+                             np.array([[0.0, 0.0, 0.0], [0.5, 0.0, 0.0]]), np.array([[0.0, 20.0]] * 3))
+        for st in streams:
+            eng.rgen = np.random.default_rng(np.random.SeedSequence(st, spawn_key=(3, 0, 0)))
+            np.random.seed(global_seed)
+            random.seed(global_seed)
+            seeds = []
+            for reverse in (True, False):
+                progs = []
+                world = fakeproc.World(Chooser([]), lambda cmd, cwd: fakeproc.LammpsProgram(cmd, cwd, record=progs))
+                world.patch(lmod)
+                try:
+                    s = System()
+                    s.set_pos((conf, 0))
+                    s.vel_rev = False
+                    eng.propagate(Path(maxlen=4), {"interfaces": (0.2, 0.2, 9.0), "ens_name": "001", "tis_set": {}}, s, reverse=reverse)
+                finally:
+                    world.unpatch()
+                seeds += [p.seed for p in progs]
+            out.append(seeds)
+        return out
+    finally:
+        scratch.rmtree(wd)
+
+
+def lammps_part(ctx):
+    """Seeds handed to the external stochastic integrator come from the job's engine stream."""
+    a = lammps_seeds([11], 1)
+    b = lammps_seeds([11], 2)
+    c = lammps_seeds([12], 1)
+    d = lammps_seeds([12, 11], 1)
+    rp = dict(kind="lammps-seed")
+    ctx.distinct(("engine", "lammps:integrator-seed", a == b, a != c, d[1] == a[0]))
+    if not a[0] or any(x is None for x in a[0]):
+        ctx.violation("engine:lammps:integrator-seed:none-handed-over", f"no seed found in the LAMMPS run input: {a}", rp)
+        return 4
+    if a != b:
+        ctx.violation("engine:lammps:integrator-seed:depends-on-global-rng", f"same job stream, different global state: seeds {a} vs {b}", rp)
+    elif a == c:
+        ctx.violation("engine:lammps:integrator-seed:ignores-job-stream", f"two different job streams give the same integrator seeds {a}", rp)
+    elif d[1] != a[0]:
+        ctx.violation("engine:lammps:integrator-seed:depends-on-previous-job",
+                      f"second job on the same engine object gets seeds {d[1]}, a fresh engine with the same stream gets {a[0]} (first job had {d[0]})", rp)
+    return 4
+
+
 def run_part(ctx):
-    n = 0
+    n = lammps_part(ctx)
     for name, kw, what in CASES:
         tag = f"{name}{'-' + kw['integrator'] if kw else ''}:{what}"
         for zm in (False, True):
@@ -104,6 +170,19 @@ def run_part(ctx):
 
 
 def replay(data):
+    if data.get("kind") == "lammps-seed":
+        class C:
+            def __init__(self):
+                self.v = []
+
+            def violation(self, s, m, r):
+                self.v.append((s, m))
+
+            def distinct(self, *_):
+                pass
+        c = C()
+        lammps_part(c)
+        return c.v
     a = one(data["name"], data["kw"], data["what"], 11, 1, data["zm"])
     b = one(data["name"], data["kw"], data["what"], 11, 2, data["zm"])
     c = one(data["name"], data["kw"], data["what"], 12, 1, data["zm"])
